@@ -87,7 +87,14 @@ impl ResponseOutputFormat {
                 };
 
                 if !errors.is_empty() {
-                    response["error"] = json![{"csv": json![errors]}];
+                    // an error that is already there (e.g. from the search) stays; the csv
+                    // formatting problems are reported next to it
+                    let key = if response.get("error").is_some() {
+                        "csv_error"
+                    } else {
+                        "error"
+                    };
+                    response[key] = json![{"csv": json![errors]}];
                 }
                 Ok(row)
             }
